@@ -21,16 +21,18 @@ def close(a, b, rtol=1e-9):
     return a == b or abs(a - b) <= rtol * max(abs(a), abs(b), 1e-300)
 
 
-def build_system(c, usys, vol):
+def build_system(c, usys, vol, state_unit="molecule"):
     w, h, d = c["shape"]
     n = w * h * d
     # diffusion coefficients differ between the environments (one of them zero on one side): the interface terms matter
     net = RDNetwork(species=[Species("A", D={"e0": 1.0, "e1": 0.25}), Species("B", D={"e0": 0.5, "e1": 0.0}), ],
-                    reactions=[Reaction("A -> B", kf={"e0": 0.1, "e1": 0.3})], environments=["e0", "e1"])
+                    # several reaction channels of different orders (the per-cell constants scale with volume^(1 - order))
+                    reactions=[Reaction("A -> B", kf={"e0": 0.1, "e1": 0.3}, kr={"e0": 0.05, "default": 0.2}),
+                               Reaction("2 B -> A", kf=0.01), Reaction(" -> B", kf={"e1": 0.5})], environments=["e0", "e1"])
     space = RDGridSpace(w=w, h=h, d=d, cell_env=list(c["env"]), cell_vol=vol, units_system=usys)
     state = [float(11 + k) for k in range(n)] + [float(2 * k + 1) for k in range(n)]
     chem = [int((k + 1) % 3 == 0) for k in range(n)] + [0] * n
-    return RDSystem(network=net, space=space, state=UnitArray(state, "molecule"), chemostats=chem, units_system=usys)
+    return RDSystem(network=net, space=space, state=UnitArray(state, state_unit), chemostats=chem, units_system=usys)
 
 
 def check_case(rep, c, rng, systems):
@@ -144,14 +146,17 @@ def identity_simulation(rep, rng, n):
         # engine through the coarse-graining route must be converted like on the plain route
         usys = UnitsSystem() if k % 2 == 0 else UnitsSystem(space=rng.choice(["nm", "mm", "dm"]), time=rng.choice(["ms", "s", "min"]),
                                                             quantity=rng.choice(["molecule", "nmol"]))
-        system = build_system(c, usys, rng.choice([1.0, 8.0]))
-        tu = usys["time"]       # times in the system's own time unit: the same numbers, hence the same stability, in every case
-        ts = UnitArray([0.0, 0.01, 0.05], tu)
-        dt = UnitValue(1e-3, tu)
+        # (the cell volume is written with its unit, so the physical system - and the numerical regime - is the same in every
+        #  case; the space stores it in its own units, which are not the simulation's)
+        system = build_system(c, usys, "%g µm3" % rng.choice([1.0, 8.0, 0.125]))
+        ts = UnitArray([0.0, 0.01, 0.05], "s")
+        dt = UnitValue(1e-3, "s")
         o1 = simulate(system, ts, engine=build.make_engine("euler", lib=lib), time_step=dt)
         o2 = simulate(system, ts, engine=build.make_engine("euler", lib=lib), time_step=dt, cgmap=list(range(w * h * d)))
         rep.case(["identity-sim", c["shape"], c["env"]])
         a, b = o1.data.convert("molecule").value, o2.data.convert("molecule").value
+        if not np.all(np.isfinite(a)):
+            raise MachineryError("identity-map probe system is numerically unstable (plain run not finite): %s" % c)
         if a.shape != b.shape or not np.allclose(a, b, rtol=1e-9, atol=1e-12) or not np.array_equal(o1.t.value, o2.t.value):
             rep.violation("identity", "coarse:identity-map-simulation", {"shape": c["shape"], "env": c["env"],
                                                                         "max_diff": float(np.max(np.abs(a - b))) if a.shape == b.shape else None})
